@@ -23,7 +23,7 @@ EXPLANATION = (
     "Not decided: equality of arbitrary user functions under cache on/off; the history "
     "quantifier beyond 'each operation preserves R4'.")
 RULE_TEXT = "one obligation per operator x literal prefix, per counter clause, per metric store, per cache clause"
-FLOORS = {'C15.R1': 18, 'C15.R2': 2, 'C15.R3': 5, 'C15.R4': 2, 'C15.R5': 3, 'C15.R6': 1, 'C15.R7': 1, 'C15.R8': 2}
+FLOORS = {'C15.R1': 30, 'C15.R2': 2, 'C15.R3': 5, 'C15.R4': 2, 'C15.R5': 3, 'C15.R6': 1, 'C15.R7': 1, 'C15.R8': 2}
 PINNED_EXPECT = [('C15.R5', 'emd.cycles.get_cycle_vector', 'last boundary'),
                  ('C15.R7', 'emd._cycles_support.map_cycle_to_samples_augmented', 'augmented extent'),
                  ('C15.R8', 'emd._cycles_support.get_augmented_cycle_stat_from_samples', 'possibly-None'),
@@ -34,14 +34,14 @@ OPS = {'==': 'numpy.equal', '!=': 'numpy.not_equal', '<=': 'numpy.less_equal', '
 
 
 def run(ctx):
-    rule_comparators(ctx, 'C15.R1')
-    rule_conjunction(ctx, 'C15.R2')
-    rule_counters(ctx, 'C15.R3')
-    rule_metric_store(ctx, 'C15.R4')
-    rule_cache(ctx, 'C15.R5')
-    rule_recompute(ctx, 'C15.R6')
-    rule_augmented_routes(ctx, 'C15.R7')
-    rule_none_extent(ctx, 'C15.R8')
+    ctx.rule(rule_comparators, 'C15.R1')
+    ctx.rule(rule_conjunction, 'C15.R2')
+    ctx.rule(rule_counters, 'C15.R3')
+    ctx.rule(rule_metric_store, 'C15.R4')
+    ctx.rule(rule_cache, 'C15.R5')
+    ctx.rule(rule_recompute, 'C15.R6')
+    ctx.rule(rule_augmented_routes, 'C15.R7')
+    ctx.rule(rule_none_extent, 'C15.R8')
 
 
 # ----------------------------------------------------------------------------------------------
@@ -81,12 +81,27 @@ class StrEval:
             if t[1] == 're.split':
                 import re
                 return re.split(self.ev(t[2][0]), self.ev(t[2][1]))
+            if t[1] in ('re.match', 're.fullmatch', 're.search', 're.findall'):
+                # the standard-library regex engine applied to the concrete test string (no repository code runs)
+                import re
+                return getattr(re, t[1].split('.')[1])(self.ev(t[2][0]), self.ev(t[2][1]))
+            if t[1] == 're.compile':
+                import re
+                return re.compile(self.ev(t[2][0]))
+            if t[1] == 'builtins.str':
+                return str(self.ev(t[2][0]))
             if t[1] == 'builtins.float':
                 return float(self.ev(t[2][0]))
         if k == 'meth':
             b = self.ev(t[2])
             args = [self.ev(a) for a in t[3]]
-            if t[1] in ('lstrip', 'strip', 'rstrip', 'split', 'startswith', 'get', 'keys'):
+            if t[1] in ('lstrip', 'strip', 'rstrip', 'split', 'startswith', 'get', 'keys', 'endswith', 'replace',
+                        'partition', 'rpartition', 'lower', 'upper'):
+                return getattr(b, t[1])(*args)
+            import re
+            if isinstance(b, re.Match) and t[1] in ('groups', 'group', 'start', 'end', 'span'):
+                return getattr(b, t[1])(*args)
+            if isinstance(b, re.Pattern) and t[1] in ('match', 'fullmatch', 'search', 'split', 'findall'):
                 return getattr(b, t[1])(*args)
         if k == 'cmp':
             a, b = self.ev(t[2]), self.ev(t[3])
@@ -107,7 +122,7 @@ def rule_comparators(ctx, rid):
     ctx.paths += len(exits)
     cond = S(fi.params[1])
     for op, want in OPS.items():
-        for lit, kind in (('3.5', 'digit'), ('-2', "'-'"), ('.25', "'.'")):
+        for lit, kind in (('3.5', 'digit'), ('-2', "'-'"), ('.25', "'.'"), ('1e-3', 'exponent'), ('2.5e4', 'exponent')):
             text = 'metric' + op + lit
             c = "'%s' followed by a %s literal selects %s" % (op, kind, want.replace('numpy', 'np'))
             sel = []
